@@ -503,7 +503,14 @@ where
     pub fn closed_reason(&self) -> Option<ClosedReason> {
         match (self.closed_rx.borrow().clone(), self.remote_send_err_rx.borrow().as_ref()) {
             (Some(reason), _) => Some(reason),
-            (None, Some(_)) => Some(ClosedReason::Failed),
+            // The error is published before the reason: classify it as the reason will be.
+            (None, Some(err)) => Some(match err {
+                RemoteSendError::Closed => ClosedReason::Closed,
+                RemoteSendError::Send(base::SendErrorKind::Send(chmux::SendError::Closed { .. })) => {
+                    ClosedReason::Dropped
+                }
+                _ => ClosedReason::Failed,
+            }),
             (None, None) => None,
         }
     }
